@@ -35,7 +35,27 @@ fn fault(rng: &mut Rng, bytes: &[u8]) -> (Vec<u8>, String) {
     let lines: Vec<String> = p.head.lines().map(|s| s.to_string()).collect();
     let numeric: Vec<usize> = lines.iter().enumerate().filter(|(_, l)| l.contains(':') && l.chars().any(|c| c.is_ascii_digit()) && !l.starts_with("HTS_VOICE") && !l.starts_with("FULLCONTEXT") && !l.starts_with("GV_OFF") && !l.starts_with("OPTION")).map(|(i, _)| i).collect();
     let rebuild = |ls: &[String]| -> String { let mut s = ls.join("\n"); s.push('\n'); s };
-    match rng.below(15) {
+    match rng.below(17) {
+        15 => {
+            // a valid multi-byte character where a header value starts (a byte-wise cursor that advances by one then cuts a
+            // character in two: seeded change C18d)
+            if numeric.is_empty() { return (bytes.to_vec(), "none".into()); }
+            let li = *rng.pick(&numeric);
+            let line = &lines[li];
+            let Some((k, v)) = line.split_once(':') else { return (bytes.to_vec(), "none".into()); };
+            let ch = *rng.pick(&["é", "５", "あ", "𝟙", "ß"]);
+            let mut ls = lines.clone();
+            ls[li] = if rng.chance(0.5) { format!("{}:{}{}", k, ch, v) } else { format!("{}:{}{}", k, ch, v.chars().skip(1).collect::<String>()) };
+            p.head = rebuild(&ls);
+            (join(&p), "value-multibyte-first-char".into())
+        }
+        16 => {
+            let k = rng.below(6);
+            match blank_tree_body(&p.data, k) {
+                Some(d) => { p.data = d; (join(&p), "tree-without-nodes".into()) }
+                None => (bytes.to_vec(), "none".into()),
+            }
+        }
         0 => {
             // truncation at a section boundary or a random offset
             let all = join(&p);
@@ -191,6 +211,18 @@ fn fault(rng: &mut Rng, bytes: &[u8]) -> (Vec<u8>, String) {
     }
 }
 
+/// the `k`-th braced tree body with its node lines blanked (same length, so every offset of the header stays valid): a tree
+/// `{ }` that the grammar accepts and that has no node at all (seeded change C18f)
+fn blank_tree_body(data: &[u8], k: usize) -> Option<Vec<u8>> {
+    let opens: Vec<usize> = (0..data.len().saturating_sub(1)).filter(|i| data[*i] == b'{' && data[*i + 1] == b'\n' && (*i == 0 || data[*i - 1] == b'\n')).take(64).collect();
+    if opens.is_empty() { return None; }
+    let o = opens[k % opens.len()];
+    let close = (o..data.len()).find(|i| data[*i] == b'}')?;
+    let mut d = data.to_vec();
+    for b in d[o + 1..close].iter_mut() { if *b != b'\n' { *b = b' '; } }
+    Some(d)
+}
+
 /// every header number of `bytes` replaced in turn by each of the given values: a complete enumeration of the
 /// single-number faults of one file (the random stream above samples the same space with other faults mixed in)
 fn enumerate_number_faults(bytes: &[u8], values: &[(&str, &str)]) -> Vec<(Vec<u8>, String)> {
@@ -236,7 +268,14 @@ pub fn gen(seed: u64, thorough: bool) {
     // complete enumeration first: every header number of one generated voice x eight replacement values, and of the
     // bundled voice x the two values that make sizes vanish or explode
     let mut fixed: Vec<(Vec<u8>, String)> = enumerate_number_faults(&bases[0], &[("0", "zero"), ("1", "one"), ("2", "two"), ("4000000000", "huge"),
-        ("99999999999999999999999999", "overflow"), ("-5", "negative"), ("abc", "text"), ("", "empty")]);
+        ("99999999999999999999999999", "overflow"), ("-5", "negative"), ("abc", "text"), ("", "empty"), ("５", "fullwidth-digit"), ("é1", "accent-first")]);
+    // every braced tree of two generated voices with its node lines blanked, one at a time
+    for b in bases.iter().take(3) {
+        let p = split(b);
+        for k in 0..12 {
+            if let Some(d) = blank_tree_body(&p.data, k) { fixed.push((join(&Parts { head: p.head.clone(), data: d }), "tree-without-nodes".into())); }
+        }
+    }
     fixed.extend(enumerate_number_faults(&bundled, &[("0", "zero"), ("4000000000", "huge")]));
     let nfixed = fixed.len();
     for i in 0..(nfixed + n) {
